@@ -29,6 +29,7 @@ use fidget_core::{
     Context,
     context::Node,
     eval::{BulkEvaluator, Function, MathFunction, Tape, TracingEvaluator},
+    render::{CancelToken, ImageSize, RenderHints, TileSizes, VoxelSize},
     types::{Grad, Interval},
     var::Var,
     vm::{GenericVmFunction, VmFunction},
@@ -70,9 +71,12 @@ fn gen_scenario(ch: &mut Chooser) -> Scenario {
     // once (some built by the main thread and handed over), evaluates them in
     // a drawn order and drops them in another: what pools, arenas and
     // free-lists of storage see
-    let kind = ch.choose("e6_kind", 4);
+    // 4: render level - each thread renders small 2-D and 3-D images of its
+    // clone of the shared shape (no pool): what process-wide state in the
+    // renderers and render handles sees
+    let kind = ch.choose("e6_kind", 5);
     let max_ops = *ch.pick("fn_size", &[4usize, 8, 16]);
-    let fg = if kind == 2 {
+    let fg = if kind == 2 || kind == 4 {
         // shape level: the axes plus up to three bound variables
         gen_func_with(ch, max_ops, 3)
     } else {
@@ -167,6 +171,80 @@ fn shape_work<F: Function + MathFunction + Clone>(
                         push(v.dx.to_bits());
                         push(v.dy.to_bits());
                         push(v.dz.to_bits());
+                    }
+                }
+            }
+        }
+        out.push(h);
+    }
+    out
+}
+
+/// Render-level workload: every operation renders a small image of the
+/// thread's clone of the shared shape on the calling thread (no pool)
+fn render_work<F: Function + MathFunction + RenderHints + Clone>(
+    f: &F,
+    vars: &[Var],
+    ops: &[Op],
+) -> Vec<u64> {
+    use fidget_core::shape::{Shape, ShapeVars};
+    use fidget_raster::{pixel, voxel};
+    let s = Shape::<F>::new_raw(f.clone());
+    let mut sv = ShapeVars::<f32>::new();
+    for (k, v) in vars.iter().enumerate() {
+        if let Some(i) = v.index() {
+            sv.insert(i, 0.625 + 0.75 * k as f32);
+        }
+    }
+    let mut out = vec![];
+    for (k, op) in ops.iter().enumerate() {
+        let mut h = 0u64;
+        let n = match op {
+            Op::Point(v) => v.len(),
+            Op::Interval(b) | Op::Simplify(b) => b.len() + 1,
+            Op::Float(c) | Op::Grad(c) => c.first().map(|v| v.len()).unwrap_or(0) + 2,
+        } + k;
+        let Ok(bound) = s.bind(&sv) else { continue };
+        match op {
+            Op::Float(_) | Op::Grad(_) => {
+                let cfg = voxel::RenderConfig {
+                    image_size: VoxelSize::new(6 + (n % 5) as u32, 5 + (n % 4) as u32, 4 + (n % 6) as u32),
+                    world_to_model: nalgebra::Matrix4::identity(),
+                };
+                let ec = voxel::EvalConfig {
+                    tile_sizes: Some(TileSizes::new(if n % 2 == 0 { &[4, 2] } else { &[8, 4] }).unwrap()),
+                    threads: None,
+                    cancel: CancelToken::new(),
+                };
+                if let Some(img) = voxel::render(bound, &cfg, &ec) {
+                    for p in img.iter() {
+                        h = mix(h, p.depth as u64);
+                        for c in p.normal {
+                            h = mix(h, c.to_bits() as u64);
+                        }
+                    }
+                }
+            }
+            _ => {
+                let cfg = pixel::RenderConfig {
+                    image_size: ImageSize::new(7 + (n % 13) as u32, 5 + (n % 11) as u32),
+                    pixel_perfect: matches!(op, Op::Simplify(_)),
+                    world_to_model: nalgebra::Matrix3::identity(),
+                    z: 0.25,
+                };
+                let ec = pixel::EvalConfig {
+                    tile_sizes: Some(TileSizes::new(if n % 2 == 0 { &[8, 4] } else { &[4] }).unwrap()),
+                    threads: None,
+                    cancel: CancelToken::new(),
+                };
+                if let Some(img) = pixel::render(bound, &cfg, &ec) {
+                    for p in img.iter() {
+                        h = mix(h, match p.unpack() {
+                            pixel::DistancePixel::Value(v) => v.to_bits() as u64,
+                            pixel::DistancePixel::Fill { depth, inside } => {
+                                (1u64 << 40) | ((depth as u64) << 1) | inside as u64
+                            }
+                        });
                     }
                 }
             }
@@ -307,7 +385,7 @@ fn tapes_of<F: Function + Clone>(f: &F) -> SharedTapes<F> {
 }
 
 /// What a thread does between its two markers
-fn thread_work<F: Function + MathFunction + Clone>(
+fn thread_work<F: Function + MathFunction + RenderHints + Clone>(
     kind: u32,
     f: &F,
     vars: &[Var],
@@ -322,11 +400,12 @@ fn thread_work<F: Function + MathFunction + Clone>(
             let sh = tapes_of(f);
             work::<F>(&sh, ops)
         }
+        4 => render_work::<F>(f, vars, &ops[..ops.len().min(3)]),
         _ => shape_work::<F>(f, vars, ops),
     }
 }
 
-fn child_go<F: Function + MathFunction + Clone + Send + Sync + 'static>(
+fn child_go<F: Function + MathFunction + RenderHints + Clone + Send + Sync + 'static>(
     sc: &Scenario,
     ch: &mut Chooser,
 ) -> i32
@@ -340,7 +419,7 @@ where
         let nodes = sc.fg.dag.lower(&mut ctx, &vars);
         let mut outs: Vec<Node> =
             sc.fg.outputs.iter().map(|o| nodes[*o]).collect();
-        if sc.kind == 2 {
+        if sc.kind == 2 || sc.kind == 4 {
             outs.truncate(1);
         }
         match rt::catch(|| F::new(&ctx, &outs)) {
@@ -1818,6 +1897,21 @@ pub fn run(st: &Shared, tier: Tier, rep: &mut RunReport) {
     };
     st.borrow_mut().log("e6_discovery", seq.len() as u64, 0);
     rep.count("sched.step_sim_scenarios", 1);
+    {
+        // which set-up and backend the child drew (the same draws, repeated here)
+        let sc = gen_scenario(&mut Chooser::search(seed));
+        rep.count(
+            match sc.kind {
+                0 => "e6.setup_tapes_built_up_front",
+                1 => "e6.setup_each_thread_builds_its_tapes",
+                2 => "e6.setup_shape_level_first_use",
+                3 => "e6.setup_hoarding_churn",
+                _ => "e6.setup_render_level",
+            },
+            1,
+        );
+        rep.count(if sc.backend >= 2 { "e6.backend_jit" } else { "e6.backend_vm" }, 1);
+    }
     rep.count("e6.sync_instructions_executed_by_first_thread", seq.len() as u64);
     let all = skeleton_points(&seq);
     let mut points: Vec<Point> = vec![];
